@@ -69,7 +69,7 @@ class C37(SimSpec):
     theorems = ["C37_total_every_prefix_partial", "C37_noorder_every_subset_partial",
                 "C37_noorder_no_duplicate_partial", "C37_single_every_version_partial",
                 "C37_keyed_total_every_combination", "C37_keyed_noorder_every_combination",
-                "C37_ksingle_every_combination", "C37_every_hook_schedule",
+                "C37_ksingle_every_combination", "C37_keyed_no_duplicate", "C37_every_hook_schedule",
                 "C37_run_hooks_every_combination", "C37_scheduler_every_choice",
                 "C37_scheduler_every_order"]
     level = "other"
